@@ -1,6 +1,7 @@
 """C18 — presence reports who is subscribed."""
 from .common import hx, rbytes, budget
 from .brokergen import *
+from . import brokergen
 
 HARNESS = "broker"
 CONST_GROUPS = ["security", "message", "cipher", "license"]
@@ -31,6 +32,8 @@ def case_key(r):
 
 
 def session(rng):
+    words = WORDS if rng.randrange(4) else ODD_WORDS      # channels whose levels are named like the broker's own channels
+    chan = lambda r, **kw: brokergen.chan(r, words=words, **kw)
     s = Session(rng, mode="emitter")
     s.key("KA", R | W | P)
     s.key("KN", R | W)             # no presence permission
